@@ -1,2 +1,203 @@
 //! bigBed side of the shared "write a file with the real writer, read it back" driver
 //! (owned by the C02/C04 work; used by C06, C08, C09, C13, ...).
+//! Case format: see /verif/coq/theories/Model/EntryBed.v (same table).
+//!   case = (kind opts sizes input queries autosql flags)
+//!   kind 0 BigBedWrite::write | 1 write_multipass; input ((name start end rest) ...);
+//!   queries (0 name s e) | (2 name s e res) | (3) | (4) | (5) autosql | (6) item_count
+//!           | (7 ((name s e) ...)) history through one fresh caching reader | (8) info without zoom fields
+//!   autosql () | ((bytes)); flags bit0 = print file bytes (uncompressed only), bit1 = zero the summary slot
+use crate::bbi::{classify, get_opts, get_sizes, info_s, read_err, runtime, write_options, zoom_err, Opts, SharedSink};
+use crate::sexp::{a, S};
+use crate::sl;
+use bigtools::beddata::BedParserStreamingIterator;
+use bigtools::{BBIFileRead, BBIProcessError, BedEntry, BigBedRead, BigBedWrite};
+use std::collections::HashMap;
+use std::io::Cursor;
+
+pub fn bed_items(s: &S) -> Vec<(String, BedEntry)> {
+    s.l()
+        .iter()
+        .map(|x| (x.at(0).string(), BedEntry { start: x.at(1).u32(), end: x.at(2).u32(), rest: x.at(3).string() }))
+        .collect()
+}
+pub fn bed_autosql(c: &S) -> Option<String> {
+    c.at(5).l().first().map(|b| b.string())
+}
+
+/// error class codes shared with Model/BigBedWrite.v
+pub fn classify_bed(msg: &str) -> i128 {
+    if msg.starts_with("Invalid autosql") {
+        43
+    } else {
+        classify(msg)
+    }
+}
+pub fn classify_bed_err<E: std::error::Error>(e: &BBIProcessError<E>) -> i128 {
+    match e {
+        BBIProcessError::IoError(_) => 50,
+        other => classify_bed(&other.to_string()),
+    }
+}
+
+/// Writes a bigBed with the real writer into an in-memory sink; Ok(bytes) or Err(class code).
+pub fn write_bigbed(
+    kind: u32,
+    o: &Opts,
+    sizes: HashMap<String, u32>,
+    autosql: Option<String>,
+    items: Vec<(String, BedEntry)>,
+    threads: usize,
+) -> Result<Vec<u8>, i128> {
+    let sink = SharedSink::new();
+    let mut w = BigBedWrite::new(sink.clone(), sizes);
+    w.options = write_options(o);
+    w.autosql = autosql;
+    let allow = !o.sort_all;
+    let rt = runtime(threads);
+    let r = if kind == 0 {
+        let src = BedParserStreamingIterator::wrap_infallible_iter(items.into_iter(), allow);
+        w.write(src, rt)
+    } else {
+        w.write_multipass(
+            || Ok(BedParserStreamingIterator::wrap_infallible_iter(items.clone().into_iter(), allow)),
+            rt,
+        )
+    };
+    match r {
+        Ok(()) => Ok(sink.bytes()),
+        Err(e) => Err(classify_bed_err(&e)),
+    }
+}
+
+pub fn entry_s(e: &BedEntry) -> S {
+    sl![a(e.start), a(e.end), S::from_str(&e.rest)]
+}
+fn summary_s(s: &bigtools::Summary) -> S {
+    sl![a(s.total_items), a(s.bases_covered), a(s.min_val.to_bits()), a(s.max_val.to_bits()), a(s.sum.to_bits()), a(s.sum_squares.to_bits())]
+}
+fn zrec_s(z: &bigtools::ZoomRecord) -> S {
+    sl![a(z.start), a(z.end), a(z.summary.bases_covered), a(z.summary.min_val.to_bits()), a(z.summary.max_val.to_bits()), a(z.summary.sum.to_bits()), a(z.summary.sum_squares.to_bits())]
+}
+pub fn info_lite_s(i: &bigtools::BBIFileInfo) -> S {
+    let h = &i.header;
+    sl![
+        S::b(matches!(i.filetype, bigtools::BBIFile::BigWig)),
+        a(h.version),
+        a(h.field_count),
+        a(h.defined_field_count),
+        S::L(i.chrom_info.iter().zip(bigtools::verif_hooks::chrom_ids(i)).map(|(c, id)| sl![S::from_str(&c.name), a(id), a(c.length)]).collect())
+    ]
+}
+
+/// get_interval drained until the first error.
+pub fn bb_interval<R: BBIFileRead>(r: &mut BigBedRead<R>, c: &str, s: u32, e: u32) -> S {
+    match r.get_interval(c, s, e) {
+        Err(e) => read_err(&e),
+        Ok(it) => {
+            let mut out = vec![];
+            for v in it {
+                match v {
+                    Ok(v) => out.push(entry_s(&v)),
+                    Err(e) => return read_err(&e),
+                }
+            }
+            sl![a(0), S::L(out)]
+        }
+    }
+}
+
+/// Answers one query (kinds 0,2,3,4,5,6,8) against a bigBed reader (plain or caching).
+pub fn bb_answer<R: BBIFileRead>(r: &mut BigBedRead<R>, q: &S) -> S {
+    let k = q.at(0).u32();
+    match k {
+        0 => bb_interval(r, &q.at(1).string(), q.at(2).u32(), q.at(3).u32()),
+        2 => match r.get_zoom_interval(&q.at(1).string(), q.at(2).u32(), q.at(3).u32(), q.at(4).u32()) {
+            Err(e) => zoom_err(&e),
+            Ok(it) => {
+                let mut out = vec![];
+                for v in it {
+                    match v {
+                        Ok(v) => out.push(zrec_s(&v)),
+                        Err(e) => return read_err(&e),
+                    }
+                }
+                sl![a(0), S::L(out)]
+            }
+        },
+        3 => match r.get_summary() {
+            Ok(s) => sl![a(0), summary_s(&s)],
+            Err(_) => sl![a(1), a(1)],
+        },
+        4 => sl![a(0), info_s(r.info())],
+        5 => match r.autosql() {
+            Ok(None) => sl![a(0), sl![]],
+            Ok(Some(s)) => sl![a(0), sl![S::from_str(&s)]],
+            Err(e) => read_err(&e),
+        },
+        6 => match r.item_count() {
+            Ok(n) => sl![a(0), a(n)],
+            Err(e) => read_err(&e),
+        },
+        _ => sl![a(0), info_lite_s(r.info())],
+    }
+}
+
+/// A whole query history through one fresh caching reader.
+pub fn bb_history(bytes: &[u8], qs: &S) -> S {
+    let r = BigBedRead::open(Cursor::new(bytes.to_vec())).expect("reopen for the caching reader");
+    let mut r = r.cached();
+    S::L(qs.l().iter().map(|q| bb_interval(&mut r, &q.at(0).string(), q.at(1).u32(), q.at(2).u32())).collect())
+}
+
+pub fn open_err(e: &bigtools::BigBedReadOpenError) -> S {
+    let code = match e {
+        bigtools::BigBedReadOpenError::NotABigBed => 2,
+        bigtools::BigBedReadOpenError::InvalidChroms => 3,
+        bigtools::BigBedReadOpenError::IoError(_) => 1,
+    };
+    sl![a(1), a(code)]
+}
+
+/// The read-back half: file bytes (as the flags ask) and the answers.
+pub fn read_back(c: &S, o: &Opts, bytes: Vec<u8>) -> S {
+    let flags = c.at(6).u32();
+    let mut r = match BigBedRead::open(Cursor::new(bytes.clone())) {
+        Ok(r) => r,
+        Err(e) => {
+            let file_s = if flags & 1 != 0 && !o.compress { S::from_bytes(&bytes) } else { S::L(vec![]) };
+            return sl![a(0), file_s, open_err(&e)];
+        }
+    };
+    let file_s = if flags & 1 != 0 && !o.compress {
+        let mut shown = bytes.clone();
+        if flags & 2 != 0 {
+            let off = bigtools::verif_hooks::header_raw(r.info()).5 as usize;
+            for b in shown.iter_mut().skip(off).take(40) {
+                *b = 0;
+            }
+        }
+        S::from_bytes(&shown)
+    } else {
+        S::L(vec![])
+    };
+    let answers: Vec<S> = c
+        .at(4)
+        .l()
+        .iter()
+        .map(|q| if q.at(0).u32() == 7 { bb_history(&bytes, q.at(1)) } else { bb_answer(&mut r, q) })
+        .collect();
+    sl![a(0), file_s, S::L(answers)]
+}
+
+/// The whole case: write, then read back and answer the queries.
+pub fn run(c: &S) -> S {
+    let kind = c.at(0).u32();
+    let o = get_opts(c.at(1));
+    let sizes = get_sizes(c.at(2));
+    let threads = std::env::var("VERIF_THREADS").ok().and_then(|x| x.parse().ok()).unwrap_or(2usize);
+    let bytes = match write_bigbed(kind, &o, sizes, bed_autosql(c), bed_items(c.at(3)), threads) {
+        Ok(b) => b,
+        Err(code) => return sl![a(1), a(code)],
+    };
+    read_back(c, &o, bytes)
+}
